@@ -890,28 +890,8 @@ def key_of(case, real, pool):
         'complex' if case['cplx'] else 'real')
 
 
-def lin_expected_known(ast, pool):
-    """`lin_expected` with the behaviour of FunctionalRightVectorMult as coded (it always says
-    is_linear=False): used only to tell whether that one known call site explains a lost flag."""
-    k = ast[0]
-    if k == 'L':
-        return pool[ast[1]].lin
-    if k == 'v.rmul':
-        t = pytype(ast[1], pool)
-        if t is not None and t[2]:
-            return False
-        return lin_expected_known(ast[1], pool)
-    if k in ('neg', 'pow', 's.lmul', 's.rmul', 's.div', 'v.lmul'):
-        return lin_expected_known(ast[1], pool)
-    if k in ('add', 'sub', 'mul'):
-        return lin_expected_known(ast[1], pool) and lin_expected_known(ast[2], pool)
-    return False
-
-
 def problem_class(p, case, real, pool):
     if 'flag lost' in p:
-        if not lin_expected_known(case['ast'], pool):
-            return 'flag-lost FunctionalRightVectorMult(linear functional, vector).is_linear=False;'
         return 'flag-lost;'
     if p.startswith('is_linear=True but'):
         return 'flag-unsound;'
